@@ -62,6 +62,19 @@ def gen_cases(rng, tier):
                 continue       # pymatgen cannot build an empty trajectory (error exit, outside the property's domain)
             cases.append({'outer': outer, 'inner': inner, 'n_parts': npart, 'mr': rng.choice([0, 0, 1, 2, 3, 5, 8]),
                           'tlen': max(npart + 1, rng.choice([T, T + 1, 2 * T + 3, 57, 100]))})
+    # a long run (frame numbers beyond 16-bit range), oracle only
+    T = rng.choice([70000, 131100])
+    outer = []
+    for _a in range(2):
+        times = sorted(set([rng.randrange(T - 1) for _ in range(6)] + [T - 2, 32767, 32768, 65535, 65536, T - 70]))
+        o, cur, kk = [], rng.randint(0, 2), 0
+        for t in range(T):
+            o.append(cur)
+            if kk < len(times) and t == times[kk]:
+                cur = rng.choice([v for v in (-1, 0, 1, 2) if v != cur])
+                kk += 1
+        outer.append(o)
+    cases.append({'outer': outer, 'inner': [list(o) for o in outer], 'n_parts': rng.choice([2, 3]), 'mr': 0, 'tlen': 100, 'long': True})
     return cases
 
 
@@ -192,8 +205,8 @@ def oracle(case, out):
 
 
 def coq_term(case, out):
-    if 'st' not in out:
-        return None
+    if 'st' not in out or case.get('long'):
+        return None          # long run: oracle only
     atoms = clist(f'({zlist(o)}, {zlist(i)})' for o, i in zip(case['outer'], case['inner']))
     st = clist(clist(zlist(a) for a in p) for p in out['st'])
     inn = clist(clist(zlist(a) for a in p) for p in out['in'])
@@ -227,4 +240,4 @@ def classify(case, out):
 
 
 def sample(case, out):
-    return {'outer': case['outer'][:2], 'n_parts': case['n_parts'], 'ev_parts': out.get('ev', [])[:2], 'traj_parts': out.get('tp', [])[:3]}
+    return {'outer': [o[:40] for o in case['outer'][:2]], 'n_parts': case['n_parts'], 'ev_parts': out.get('ev', [])[:2], 'traj_parts': out.get('tp', [])[:3]}
